@@ -132,7 +132,7 @@ section Example
 def exCfg : Cfg 4 :=
   { price := 2, dflt := 10, input := 1, call := 3, invoke := 1000, legacyFee := false, legacyBal := false,
     isContract := fun a => a.val = 2, hasContract := fun _ => false, treasury := 3 }
-def exW : World 4 := ⟨fun a => if a.val = 0 then 1000 else 0, fun _ _ => 0⟩
+def exW : World 4 := ⟨fun a => if a.val = 0 then 1000 else 0, fun _ _ => 0, fun _ => none⟩
 def exTx1 : Tx 4 := ⟨0, 1, 100, 20, 0, .transfer⟩
 def exTx2 : Tx 4 := ⟨0, 1, 0, 100, 5, .call [.setv 0 7, .emit 1, .xfer 2 1 true, .emit 2]⟩
 
